@@ -165,7 +165,9 @@ Lemma set_result_J c s0 h r s' ev : Jx s0 [h] -> fin_res s0 = None -> fin_exc s0
   Jx s' [] \/ finishes_otherwise s0 s'.
 Proof.
   intros J Hres Hexc H. pose proof (not_completed s0 Hres Hexc) as NC. destruct r; cbn [set_result] in H;
-    unfold fail_with, finish_with in H; rewrite ?NC in H;
+    unfold fail_with, finish_with in H;
+    repeat match type of H with context [completed (set_paging s0 ?b)] => change (completed (set_paging s0 b)) with (completed s0) in H end;
+    rewrite ?NC in H;
     try (inversion H; subst; fin_other);
     try (inversion H; subst; fin_res_changed Hres).
   - destruct (pol c (nconsult s0) k tag (retries s0) (if request_error_kind k then msg_cl s0 else None)) as [d dcl].
@@ -233,10 +235,10 @@ Proof.
     unfold send_request in W. eapply Jx_resolve; [eapply Jx_walk; eauto|eapply covered_walk; eauto].
 Qed.
 
-Theorem step_J c s o s' ev : Jx s [] -> fin_res s = None -> fin_exc s = None -> step c s o = (s', ev) ->
+Theorem step_J c s o s' ev : is_next_page o = false -> Jx s [] -> fin_res s = None -> fin_exc s = None -> step c s o = (s', ev) ->
   Jx s' [] \/ finishes_otherwise s s'.
 Proof.
-  intros J Hres Hexc H. destruct o as [|i r|k| |h0 p|k]; cbn [step] in H.
+  intros NP J Hres Hexc H. destruct o as [|i r|k| |h0 p|k|pp]; cbn [step] in H; [| | | | | |discriminate].
   - left. unfold send_request in H. eapply Jx_walk; eauto.
   - destruct (nth_error (attempts s) i) as [a|] eqn:N; [|inversion H; subst; left; exact J].
     destruct (a_done a); [inversion H; subst; left; exact J|].
@@ -292,9 +294,9 @@ Proof. destruct (finish_with_res s0 r) as [E _]. destruct (completed s0); [left;
 Lemma fail_res_keep s0 x : res_keep s0 (fail_with s0 x).
 Proof. left. apply fail_with_exc. Qed.
 
-Lemma step_res_keep c s o s' ev : step c s o = (s', ev) -> res_keep s s'.
+Lemma step_res_keep c s o s' ev : is_next_page o = false -> step c s o = (s', ev) -> res_keep s s'.
 Proof.
-  intros H. destruct o as [|i r|k| |h0 p|k]; cbn [step] in H.
+  intros NP H. destruct o as [|i r|k| |h0 p|k|pp]; cbn [step] in H; [| | | | | |discriminate].
   - left. apply walk_frame_ok in H. apply H.
   - destruct (nth_error (attempts s) i) as [a|]; [|inversion H; subst; left; reflexivity].
     destruct (a_done a); [inversion H; subst; left; reflexivity|].
@@ -302,7 +304,8 @@ Proof.
     set (s0 := set_attempts s (mark_done i (attempts s))) in *.
     change (res_keep s0 s').
     destruct r; cbn [set_result] in H;
-      try (inversion H; subst; first [apply finish_res_keep | apply fail_res_keep]).
+      try (inversion H; subst; first [apply finish_res_keep | apply fail_res_keep
+                                     | exact (finish_res_keep (set_paging s0 _) _)]).
     + destruct (pol c _ k tag _ _) as [d dcl]. unfold handle_decision in H. inversion H; subst.
       destruct d; try (left; reflexivity).
       * exact (fail_res_keep (tick_consult s0) (XResp k tag)).
@@ -343,22 +346,23 @@ Qed.
 
 Definition Good (s : state) : Prop := fin_res s = None -> fin_exc s = None -> Jx s [].
 
-Lemma good_step c s o s' ev : Good s -> step c s o = (s', ev) -> Good s'.
+Lemma good_step c s o s' ev : is_next_page o = false -> Good s -> step c s o = (s', ev) -> Good s'.
 Proof.
-  intros G H R' E'.
+  intros NP G H R' E'.
   assert (R : fin_res s = None).
-  { destruct (step_res_keep _ _ _ _ _ H) as [K|[r K]]; congruence. }
+  { destruct (step_res_keep _ _ _ _ _ NP H) as [K|[r K]]; congruence. }
   assert (E : fin_exc s = None).
-  { destruct (step_exc _ _ _ _ _ H) as [K|[(x & K & _)|(K & _)]]; congruence. }
-  destruct (step_J _ _ _ _ _ (G R E) R E H) as [J|[[N _]|(x & K & _)]]; [exact J|congruence|congruence].
+  { destruct (step_exc _ _ _ _ _ NP H) as [K|[(x & K & _)|(K & _)]]; congruence. }
+  destruct (step_J _ _ _ _ _ NP (G R E) R E H) as [J|[[N _]|(x & K & _)]]; [exact J|congruence|congruence].
 Qed.
 
-Lemma good_exec c : forall ops s s' ev, Good s -> exec c s ops = (s', ev) -> Good s'.
+Lemma good_exec c : forall ops s s' ev, no_page ops = true -> Good s -> exec c s ops = (s', ev) -> Good s'.
 Proof.
-  induction ops as [|o ops IH]; intros s s' ev G H; cbn [exec] in H.
+  induction ops as [|o ops IH]; intros s s' ev N G H; cbn [exec] in H.
   - inversion H; subst. exact G.
-  - destruct (step c s o) as [s1 ev1] eqn:S. destruct (exec c s1 ops) as [s2 ev2] eqn:E. inversion H; subst.
-    eapply IH; [|exact E]. eapply good_step; eauto.
+  - cbn [no_page forallb] in N. apply andb_prop in N. destruct N as [N1 N2]. apply negb_true_iff in N1.
+    destruct (step c s o) as [s1 ev1] eqn:S. destruct (exec c s1 ops) as [s2 ev2] eqn:E. inversion H; subst.
+    eapply IH; [exact N2| |exact E]. eapply good_step; eauto.
 Qed.
 
 Lemma good_init lb target pl cl idem hasp maxa ks : Good (init lb target pl cl idem hasp maxa ks).
@@ -370,17 +374,19 @@ Qed.
 (* the step that raises NoHostAvailable out of a request without outcome: every host of the plan is listed in the error
    or still has an unanswered attempt / queued task *)
 Lemma exhaustion_covers c lb target pl cl idem hasp maxa ks ops s evs o s' ev errs :
+  no_page ops = true -> is_next_page o = false ->
   exec c (init lb target pl cl idem hasp maxa ks) ops = (s, evs) -> fin_res s = None -> fin_exc s = None ->
   step c s o = (s', ev) -> fin_exc s' = Some (XNoHost errs) ->
   forall h, In h (make_plan lb target) -> In h (keys errs) \/ In h (open_hosts s').
 Proof.
-  intros X R E S N h Hh.
-  pose proof (good_exec c ops _ _ _ (good_init lb target pl cl idem hasp maxa ks) X) as G.
+  intros Np NP X R E S N h Hh.
+  pose proof (good_exec c ops _ _ _ Np (good_init lb target pl cl idem hasp maxa ks) X) as G.
   destruct (nohost_only_when_exhausted _ _ _ _ _ _ S N) as [K|[-> P]]; [congruence|].
-  pose proof (history_inv c lb target pl cl idem hasp maxa ks ops s evs X) as HI.
+  pose proof (history_inv_first_page c lb target pl cl idem hasp maxa ks ops s evs Np X) as HI.
   pose proof (step_hinv c _ _ _ _ _ _ HI S) as (I1 & _ & _).
-  rewrite P, app_nil_r in I1.
-  destruct (step_J _ _ _ _ _ (G R E) R E S) as [[J1 _]|[[_ K]|(x & K & Nx)]].
+  assert (Ep : plan_after c o s (make_plan lb target) = make_plan lb target) by (destruct o; try reflexivity; discriminate).
+  rewrite Ep, P, app_nil_r in I1.
+  destruct (step_J _ _ _ _ _ NP (G R E) R E S) as [[J1 _]|[[_ K]|(x & K & Nx)]].
   - rewrite <- I1 in Hh. destruct (J1 h Hh) as [[]|C]. exact C.
   - congruence.
   - exfalso. rewrite K in N. inversion N; subst. eapply Nx; reflexivity.
